@@ -38,21 +38,31 @@ def fingerprint(assertions):
     return hashlib.sha256(txt.encode()).hexdigest()[:16]
 
 
-def check(assertions, timeout_ms=None, want_model=True, try_cvc5=True):
+def _guarded_check(s, timeout_ms):
+    """s.check(); hard limits are enforced per task by the runner (subprocess + wall-clock kill)."""
+    try:
+        return s.check()
+    except z3.Z3Exception:
+        return z3.unknown
+
+
+def check(assertions, timeout_ms=None, want_model=True, try_cvc5=True, single=False):
     """Decide satisfiability of the conjunction. Returns Verdict."""
     t0 = time.time()
     s = z3.Solver()
     s.set('timeout', timeout_ms or Z3_TIMEOUT_MS)
     for a in assertions:
         s.add(a)
-    r = s.check()
+    r = _guarded_check(s, timeout_ms or Z3_TIMEOUT_MS)
     dt = time.time() - t0
     if r == z3.unsat:
         return Verdict('unsat', 'z3', dt)
     if r == z3.sat:
         return Verdict('sat', 'z3', dt, model=s.model() if want_model else None)
     reason = s.reason_unknown()
-    if try_cvc5:
+    if single:
+        return Verdict('unknown', 'z3', dt, reason=reason)
+    if try_cvc5 and 'lambda' not in _smt2(assertions):
         v = check_cvc5(assertions)
         if v.status != 'unknown':
             v.time_s += dt
@@ -66,7 +76,7 @@ def check(assertions, timeout_ms=None, want_model=True, try_cvc5=True):
     s2.set('smt.ematching', True)
     for a in assertions:
         s2.add(a)
-    r = s2.check()
+    r = _guarded_check(s2, (timeout_ms or Z3_TIMEOUT_MS) * 2)
     dt2 = time.time() - t1
     if r == z3.unsat:
         return Verdict('unsat', 'z3(ematching)', dt + dt2)
